@@ -611,6 +611,106 @@ CHECKS["C20"] = {
 }
 
 
+def c16_run(rep, tier, seed, tr):
+    import cli as C
+    rep.rules.append("every registered suffix x 15 file-name shapes (s, b.s, b.x.s, .b.s, b.s.bak, upper case, directories with dots, spaces, trailing dot, ..) x 8 -E maps (none, new extensions, remap of a registered key, remap of a proper suffix of a compound key, remap onto Makefile), plus random dotted names: the grammar class chosen by the real lookup vs the Lean lookup over the regenerated table; -E validation through the binary; non-trivial = a grammar is chosen")
+    n = n_for(tier, 3000, 60000)
+    rows = K.run_component(rep.prop, "lookup", [], seed, n, tier)
+    by_parser = {}
+    for ext, parser in tr["ext"]:
+        by_parser.setdefault(parser, []).append(ext)
+    bad = 0
+    for case, impl, model in rows:
+        rep.evaluations += 1
+        rep.traces += 1
+        want = sorted(by_parser[model]) if isinstance(model, str) else None
+        got = impl.get("class")
+        rep.count("lookup:" + ("grammar" if got else "skipped"))
+        if got:
+            rep.nontrivial.add(K.canon(case))
+        if len(rep.samples) < 3 and got:
+            rep.samples.append({"case": case, "impl": impl, "model": model})
+        if want != got:
+            bad += 1
+            if bad <= 3:
+                rep.violation({"property": rep.prop, "component": "lookup", "what": "grammar chosen by the real lookup differs from the proved lookup over the regenerated table",
+                               "case": case, "impl": impl, "model_parser": model, "model_class": want})
+    # -E validation and end-to-end use of a remap through the binary
+    scen = [
+        (["-E", "cxx=cpp", "list"], {"x.cxx": "// <block name=\"a\">\n// </block>\n"}, 0, "x.cxx"),
+        (["-E", "c++=cpp", "-E", "hh=h", "list"], {"d/y.c++": "// <block name=\"a\">\n// </block>\n", "z.hh": "/* <block name=\"b\"> */\n/* </block> */\n"}, 0, "d/y.c++"),
+        (["-E", "foo=bar", "list"], {"x.py": "# <block name=\"never-closed\">\n"}, "nonzero", None),
+        (["-E", "foo=PY", "list"], {"x.py": "# <block name=\"never-closed\">\n"}, "nonzero", None),
+        (["-E", "foo", "list"], {"x.py": "# ok\n"}, "nonzero", None),
+        (["list"], {"x.unknown": "# <block name=\"never-closed\">\n", "README": "<block>", "x.PY": "# <block>\n", "x.py.bak": "# <block>\n"}, 0, None),
+        (["list"], {"go.mod": "// <block name=\"m\">\n// </block>\n", "sub/go.sum": "// <block name=\"s\">\n// </block>\n", "Makefile": "# <block name=\"k\">\n# </block>\n", "t.d.ts": "// <block name=\"t\">\n// </block>\n"}, 0, "go.mod"),
+    ]
+    def one(sc):
+        args, files, want, listed = sc
+        root = C.tmp_root()
+        try:
+            C.materialise(root, list(files.items()))
+            return C.run_bw(root, args, env={"BLOCKWATCH_TERMINAL_MODE": "1"})
+        finally:
+            import shutil as _sh
+            _sh.rmtree(root, ignore_errors=True)
+    for (args, files, want, listed), res in zip(scen, C.pmap(one, scen)):
+        rep.evaluations += 1
+        ok = (res["exit"] == 0) if want == 0 else (res["exit"] not in (0, None) and "not closed" not in res["stderr"])
+        if ok and want == 0:
+            try:
+                obj = json.loads(res["stdout"])
+                ok = (listed in obj) if listed else (obj == {})
+                if listed == "go.mod":
+                    ok = set(obj) == set(files)
+                if listed == "d/y.c++":
+                    ok = set(obj) == set(files)
+            except Exception:
+                ok = False
+        rep.count("cli-E:" + ("ok" if ok else "bad"))
+        if not ok or "panicked" in res["stderr"]:
+            rep.violation({"property": rep.prop, "component": "-E through the binary", "args": args, "files": files, "cli": res})
+
+
+def c16_search(rep, tier, seed, broken):
+    """an obligation over the regenerated table broke: look for a registered suffix that no longer wins"""
+    with K.Lock():
+        K.build_harness()
+    d = os.path.join(K.WORK, rep.prop, "search")
+    os.makedirs(d, exist_ok=True)
+    K.sh([K.BWH, "lookup", "--seed", str(seed), "--n", "0", "--out", d])
+    tr = K.translate()
+    keys = {e for e, _ in tr["ext"]}
+    found = False
+    for cl, il in zip(open(os.path.join(d, "cases.jsonl")), open(os.path.join(d, "impl.jsonl"))):
+        case, impl = json.loads(cl), json.loads(il)
+        if case["extra"]:
+            continue
+        path = case["path"]
+        base = path.rsplit("/", 1)[-1]
+        for key in keys:
+            wins = base == key or base.endswith("." + key)
+            shorter = any(k != key and len(k) < len(key) and (base.endswith("." + k)) for k in keys)
+            if wins and not path.endswith("/") and ".." not in path:
+                cls = impl.get("class") or []
+                if key not in cls and not any(base.endswith("." + k) and len(k) > len(key) for k in keys):
+                    rep.violation({"property": rep.prop, "what": f"file name {path!r} ends in the registered suffix {key!r} but is parsed with the grammar class {cls} (a shorter registered suffix shadows it: {shorter})",
+                                   "broken_obligation": broken.what, "detail": broken.detail, "case": case, "impl": impl})
+                    found = True
+                    break
+        if found:
+            break
+    return found
+
+
+CHECKS["C16"] = {
+    "search": c16_search,
+    "module": "Bw.Props.C16", "needs_binary": True, "technique": "Lean 4 theorems decided over the extension table regenerated from the source by the translator + differential check of the lookup",
+    "trusted_base": TB_COMMON + ["the translator reading `language_parsers()` (cross-checked: the real lookup's grammar classes come from Rc::ptr_eq on the live table)"],
+    "run": c16_run,
+}
+
+
 def replay(prop, path):
     """re-run one recorded case against the current tree and the model; print both outcomes"""
     data = json.load(open(path))
